@@ -168,7 +168,7 @@ func Exp10(d Decimal) Decimal {
 			exp--
 		}
 
-		if dSigInt > maxUnbiasedExponent+58 {
+		if dSigInt > exponentBias+maxDigits {
 			if d.Signbit() {
 				return zero(false)
 			}
@@ -193,17 +193,11 @@ func Exp10(d Decimal) Decimal {
 	var res decomposed192
 	var trunc int8
 
-	var sigInt uint128
 	var expInt int16
 
 	if dSigInt != 0 {
-		sigInt = uint128{1, 0}
-
-		for dSigInt > maxUnbiasedExponent {
-			sigInt = sigInt.mul64(10)
-			dSigInt--
-		}
-
+		// dSigInt is at most maxUnbiasedExponent+58 here; the working format's
+		// exponent holds that, and the final reduction decides the range.
 		expInt = int16(dSigInt)
 	}
 
